@@ -170,7 +170,8 @@ impl<'a> Gen<'a> {
         if time {
             format!("after({})", self.locks.time_base + 600 * self.rng.range(1, 30) as u32)
         } else {
-            format!("after({})", self.locks.height_base + self.rng.range(1, 30) as u32)
+            // around the starting tip: some already reachable, some only after a few blocks
+            format!("after({})", self.locks.height_base - 12 + self.rng.range(0, 40) as u32)
         }
     }
     pub fn older(&mut self, time: bool) -> String {
